@@ -129,6 +129,9 @@ class World:
         self.conns = {}          # c -> Conn
         self.cid = {}            # id(sock) -> c
         self.peer = set()        # connections whose disconnect the harness injected
+        self.linger = set()      # connections whose transport lingers after the component's close
+        self.sclosed = set()     # connections for which the component fired close(sock)
+        self.gone_set = set()    # connections whose disconnect(sock) was dispatched
         self.dead = False
         self.decoder = []        # what the decoder complained about (exception class names, "version")
         self._writes = {}        # c -> [(index in self.lines where the write happened, bytes)]
@@ -153,11 +156,13 @@ class World:
 
             @handler('close', priority=200.0)
             def _c(self, sock=None):
+                world.sclosed.add(world.cid.get(id(sock), 0))
                 world.lines.append(line('close', world.cid.get(id(sock), 0)))
 
             @handler('disconnect', priority=200.0)
             def _d(self, sock=None):
                 c = world.cid.get(id(sock), 0)
+                world.gone_set.add(c)
                 world.lines.append(line('disc', c, a=1 if c in world.peer else 0))
 
             @handler('request', priority=200.0)
@@ -271,11 +276,26 @@ class World:
             self.lines.append(line('tab', k, a=nb, b=nc))
 
     # -- driving ---------------------------------------------------------------
-    def connect(self, c):
-        self.lines.append(line('conn', c))
+    def connect(self, c, linger=False):
+        """linger: the transport does not disconnect at once when the component fires
+        close(sock) (circuits.net.sockets.Server defers the close while its write buffer
+        drains and goes on delivering reads): the harness fires disconnect(sock) later
+        (transport_disconnect).  The stub of httpdouble.py disconnects at once unless it
+        takes the connection for closed already, so that flag is set beforehand (the
+        stub's own bookkeeping of output is not used by this driver)."""
+        self.lines.append(line('conn', c, a=1 if linger else 0))
         conn = self.h.connect(settle=False)
         self.conns[c] = conn
         self.cid[id(conn.sock)] = c
+        if linger:
+            self.linger.add(c)
+            conn.closed = True
+        self._end_step(c)
+
+    def transport_disconnect(self, c):
+        """The lingering transport has drained its buffer: disconnect(sock) after the close."""
+        from circuits.net.events import disconnect
+        self.h.fire(disconnect(self.conns[c].sock))
         self._end_step(c)
 
     def feed(self, c, msg, then_disconnect=False):
@@ -294,8 +314,10 @@ class World:
         self._end_step(c)
 
     def gone(self, c):
-        conn = self.conns[c]
-        return conn.closed or conn.peer_gone
+        return c in self.gone_set or c in self.peer
+
+    def closing(self, c):
+        return c in self.sclosed and not self.gone(c)
 
     def waiting(self, c):
         """The last message delivered on c has drawn no reaction yet."""
@@ -311,8 +333,9 @@ class World:
 
 
 # ---------------------------------------------------------------------------
-# scripts: [('conn', c) | ('in', c, Msg) | ('inx', c, Msg) | ('disc', c)]
-# ('inx' = read with the peer's disconnect queued right behind it)
+# scripts: [('conn', c) | ('connl', c) | ('in', c, Msg) | ('inx', c, Msg) | ('disc', c) | ('tdisc', c)]
+# ('connl' = connection with a lingering transport, 'tdisc' = that transport's disconnect after
+#  the component's close; 'inx' = read with the peer's disconnect queued right behind it)
 
 def run_script(script, strict=False):
     """Replay a concrete script on the real component -> (lines, notes, steps done).
@@ -329,12 +352,18 @@ def run_script(script, strict=False):
             if w.dead:
                 break
             op, c = step[0], step[1]
-            if op == 'conn':
+            if op in ('conn', 'connl'):
                 if c in w.conns:
                     continue
-                w.connect(c)
+                w.connect(c, linger=(op == 'connl'))
             elif c not in w.conns or w.gone(c):
                 done.append(None)
+                continue
+            elif op == 'tdisc' and not w.closing(c):
+                done.append(None)          # nothing to drain: the component has not closed
+                continue
+            elif strict and w.closing(c) and (op in ('inx', 'disc') or (op == 'in' and step[2].cls == 'Rest')):
+                done.append(None)          # the model delivers plain reads only to a closing connection
                 continue
             elif strict and op in ('in', 'inx') and step[2].cls != 'Rest' and w.waiting(c):
                 done.append(None)
@@ -352,6 +381,8 @@ def run_script(script, strict=False):
                 last[c] = step[2]
             elif op == 'disc':
                 w.disconnect(c)
+            elif op == 'tdisc':
+                w.transport_disconnect(c)
             done.append(step)
         return w.lines, w.notes + ['decoder:' + d for d in w.decoder], done
     finally:
@@ -449,9 +480,11 @@ def realise_history(h, rnd, rep):
     trunc = {}
     for op, c, cls in h:
         if op == 'C':
-            script.append(('conn', c))
+            script.append(('connl' if cls == 'linger' else 'conn', c))
         elif op == 'D':
             script.append(('disc', c))
+        elif op == 'T':
+            script.append(('tdisc', c))
         else:
             if cls == 'Rest':
                 m = G.rest_of(trunc[c])
@@ -468,10 +501,12 @@ def effective_history(done):
     for st in done:
         if st is None:
             continue
-        if st[0] == 'conn':
-            out.append(('C', st[1], ''))
+        if st[0] in ('conn', 'connl'):
+            out.append(('C', st[1], 'linger' if st[0] == 'connl' else ''))
         elif st[0] == 'disc':
             out.append(('D', st[1], ''))
+        elif st[0] == 'tdisc':
+            out.append(('T', st[1], ''))
         else:
             out.append(('I' if st[0] == 'in' else 'X', st[1], st[2].cls))
     return tuple(out)
@@ -531,31 +566,77 @@ def scripts_truncations(rnd, quick):
     return out
 
 
+ONE_BYTE = G.Msg('Truncate', 'get11@1', 'partial', b'G', b'ET /?a=1&b=two HTTP/1.1\r\nHost: verif.example\r\n\r\n', 'get11')
+
+
+def scripts_late(rnd, quick):
+    """Reads that arrive after the component has answered and fired close(sock), while
+    the transport lingers: one byte, a longer proper prefix of a request, a complete
+    request - after every mutant of every class and after the closing good requests."""
+    out = []
+    firsts = [(cls, sub) for cls, sub in G.all_subs()] + [('GoodClose', i) for i in range(len(G.CLOSE_BASES))]
+    for cls, sub in firsts:
+        for kind in ('byte', 'prefix', 'good', 'two'):
+            if quick and kind == 'two' and cls not in ('BadHeader', 'BadLine'):
+                continue
+            m = G.realise(cls, rnd, sub=sub)
+            if kind == 'byte':
+                late = [ONE_BYTE]
+            elif kind == 'prefix':
+                late = [G.realise('Truncate', rnd)]
+            elif kind == 'good':
+                late = [G.realise('GoodKA', rnd)]
+            else:
+                t = G.realise('Truncate', rnd)
+                late = [t, G.rest_of(t)]
+            out.append(('late:' + kind, [('connl', 1), ('in', 1, m)] + [('in', 1, x) for x in late] + [('tdisc', 1), ('disc', 1)]))
+    return out
+
+
+def scripts_tls_cuts(rnd, quick):
+    """A TLS / SSLv2 client hello cut at every offset as the FIRST read of a connection
+    (and of a kept-alive one): then the rest, or the peer's hang-up."""
+    out = []
+    for name, hello, off in G.tls_truncations():
+        t = G.Msg('TlsCut', '%s@%d' % (name, off), 'partial', hello[:off], hello[off:], name)
+        out.append(('tlscut:disc', [('conn', 1), ('in', 1, t), ('disc', 1)]))
+        if not quick or off <= 12 or off % 4 == 0:
+            rest = G.Msg('Fuzz', 'tlsrest', 'hostile', t.rest, b'', name)
+            out.append(('tlscut:rest', [('conn', 1), ('in', 1, t), ('in', 1, rest), ('disc', 1)]))
+            out.append(('tlscut:keptalive', [('conn', 1), ('in', 1, G.realise('GoodKA', rnd)), ('in', 1, t), ('disc', 1)]))
+    # single bytes with the high bit set, and a few without
+    for b in [0x80, 0x81, 0x8f, 0xa5, 0xc0, 0xfe, 0xff, 0x16, 0x00, 0x7f]:
+        t = G.Msg('TlsCut', 'byte%02x' % b, 'partial' if b >= 0x80 or b == 0x16 else 'hostile', bytes([b]), b'', 'byte')
+        out.append(('tlscut:byte', [('conn', 1), ('in', 1, t), ('disc', 1)]))
+        out.append(('tlscut:byte', [('connl', 1), ('in', 1, G.realise('BadHeader', rnd, sub='host_missing_11')), ('in', 1, t), ('tdisc', 1)]))
+    return out
+
+
 def scripts_random(rnd, n, fuzz):
     """Seeded random scripts over <= 3 connections; after an unanswered message
     anything may follow (continuation bytes of an arbitrary class)."""
     out = []
     for _ in range(n):
         nconn = rnd.choice([1, 2, 2, 3])
-        sc = [('conn', 1)]
+        sc = [('connl' if rnd.random() < 0.4 else 'conn', 1)]
         opened = {1}
         trunc = {}
         for _ in range(rnd.randint(2, 8)):
             c = rnd.randint(1, nconn)
             if c not in opened:
-                sc.append(('conn', c))
+                sc.append(('connl' if rnd.random() < 0.4 else 'conn', c))
                 opened.add(c)
                 continue
             r = rnd.random()
             if r < 0.12:
-                sc.append(('disc', c))
+                sc.append(('disc' if rnd.random() < 0.6 else 'tdisc', c))
                 continue
             if fuzz and r < 0.55:
                 m = G.random_garbage(rnd)
             elif r < 0.3 and c in trunc:
                 m = G.rest_of(trunc.pop(c))
             else:
-                cls = rnd.choice(['GoodKA', 'GoodKA', 'GoodClose', 'Truncate'] + G.BAD_CLASSES)
+                cls = rnd.choice(['GoodKA', 'GoodKA', 'GoodClose', 'Truncate', 'Truncate', 'TlsCut'] + G.BAD_CLASSES)
                 m = G.realise(cls, rnd)
                 if cls == 'Truncate':
                     trunc[c] = m
@@ -628,6 +709,15 @@ def witness_of(lines, badline, notes):
          'nresp': len(resp), 'exc': any(ln['k'] == 'exc' for ln in lines[start:badline]),
          'hangup': '' if not discs else ('peer' if discs[0] == 1 else 'server'),
          'continued': nin > 1}
+    # was the message delivered after the component had fired close(sock) on this connection,
+    # and how had the message before it been answered
+    before = [ln for ln in lines[:start] if ln['c'] == c]
+    w['late'] = any(ln['k'] == 'close' for ln in before)
+    pstart = max([i for i, ln in enumerate(before) if ln['k'] == 'in'] or [0])
+    prev = before[pstart:]
+    prej = [ln['st'] for ln in prev if ln['k'] == 'rej']
+    w['prev_rej'] = prej[0] if prej else 0
+    w['prev_exc'] = any(ln['k'] == 'exc' for ln in prev)
     if bl['k'] == 'tab':
         w['table'] = 'parser' if bl['a'] and not bl['b'] else ('client' if bl['b'] and not bl['a'] else 'both')
     if bl['k'] == 'alive':
@@ -644,7 +734,8 @@ def witness_of(lines, badline, notes):
 # ---------------------------------------------------------------------------
 # corrupted traces (binding demonstration)
 
-HOWS = ['residue', 'two', 'garbage', 'incomplete', 'noclose', 'keptbutclosed', 'dead', 'dispatch', 'status', 'goodclosed']
+HOWS = ['residue', 'two', 'garbage', 'incomplete', 'noclose', 'keptbutclosed', 'dead', 'dispatch', 'status', 'goodclosed',
+        'partial']
 
 
 def mutate_trace(rnd, lines, how):
@@ -652,6 +743,20 @@ def mutate_trace(rnd, lines, how):
     out = [dict(ln) for ln in lines]
     idx = {k: [i for i, ln in enumerate(out) if ln['k'] == k] for k in ('resp', 'tab', 'alive', 'rej', 'close', 'req', 'in')}
     peer_gone = set()
+    if how == 'partial':
+        # a proper prefix of a message, delivered where a message starts, is answered
+        cands = []
+        for i, ln in enumerate(out):
+            if ln['k'] == 'in' and ln['wf'] == 'partial' and i + 1 < len(out) and out[i + 1]['k'] == 'alive' \
+                    and _phase_before(out, i + 1, ln['c']) == 'recv' and _wf_before(out, i + 1, ln['c']) == 'partial' \
+                    and not any(x['k'] == 'disc' and x['a'] == 1 and x['c'] == ln['c'] for x in out[:i]):
+                cands.append(i)
+        if not cands:
+            return None
+        i = rnd.choice(cands)
+        c = out[i]['c']
+        out[i + 1:i + 1] = [line('rej', c, st=400), line('resp', c, st=400, pr='ok', sc=True, a=1001), line('close', c)]
+        return out, 'C14.two_responses', 'a proper prefix answered at line %d' % (i + 3)
     if how == 'residue':
         gone = set()
         cands = []
@@ -695,8 +800,8 @@ def mutate_trace(rnd, lines, how):
             return None
         # neither the close nor the transport's disconnect that follows it
         cut = [j] + [k for k in range(j + 1, min(j + 3, len(out))) if out[k]['k'] == 'disc' and out[k]['c'] == c]
-        if any(out[k]['k'] == 'disc' and out[k]['c'] == c for k in range(0, j)):
-            return None
+        if any(out[k]['k'] in ('disc', 'close') and out[k]['c'] == c for k in range(0, j)):
+            return None        # (an earlier close of a lingering connection already covers it)
         out = [ln for k, ln in enumerate(out) if k not in cut]
         return out, 'C14.close_mismatch', 'announced close never fired (response at line %d)' % (i + 1)
     if how == 'keptbutclosed':
@@ -833,9 +938,8 @@ def run_replay(path):
 
 # ---------------------------------------------------------------------------
 
-ACTIONS = ('Connect', 'In', 'InX', 'Disc')
-VARIANTS = {frozenset(): 'fixed', frozenset(['keepbuf']): 'keepbuf', frozenset(['echo505']): 'echo505',
-            frozenset(['keepbuf', 'echo505']): 'pinned'}
+ACTIONS = ('Connect', 'In', 'Late', 'InX', 'Disc', 'TDisc')
+VARIANTS = {frozenset(): 'intended', frozenset(['stalebuf']): 'stalebuf'}
 
 
 def run(tier, replay=None):
@@ -854,14 +958,18 @@ def run(tier, replay=None):
     #    each defect of the pinned code violates it; histories are dumped.
     suffix = '' if quick else '_thorough'
     jobs = {
-        'mc': lambda: tlc.model_check(SPEC, 'HttpConn', 'MC_HttpConn%s.cfg' % suffix, coverage=True, workers=4),
+        # (-coverage slows TLC down threefold: the big run goes without, a small one says which actions are taken)
+        'mc': lambda: tlc.model_check(SPEC, 'HttpConn', 'MC_HttpConn%s.cfg' % suffix, workers=4),
+        'cov': lambda: tlc.model_check(SPEC, 'HttpConn', 'MC_HttpConn_cov.cfg', coverage=True, workers=1),
         'gen:keepbuf': lambda: tlc.run_tlc(SPEC, 'HttpConn', 'MC_HttpConn_keepbuf.cfg', workers=1),
         'gen:echo505': lambda: tlc.run_tlc(SPEC, 'HttpConn', 'MC_HttpConn_echo505.cfg', workers=1),
+        'gen:stalebuf': lambda: tlc.run_tlc(SPEC, 'HttpConn', 'MC_HttpConn_stalebuf.cfg', workers=1),
         'hist:one': lambda: dump_histories('HIST_HttpConn_one%s.cfg' % suffix),
         'hist:two': lambda: dump_histories('HIST_HttpConn_two%s.cfg' % suffix),
     }
     if not quick:
         jobs['hist:twob'] = lambda: dump_histories('HIST_HttpConn_twob_thorough.cfg')
+        jobs['hist:onel'] = lambda: dump_histories('HIST_HttpConn_onel_thorough.cfg')
     with ThreadPoolExecutor(max_workers=len(jobs)) as ex:
         futs = {k: ex.submit(f) for k, f in jobs.items()}
         results = {k: f.result() for k, f in futs.items()}
@@ -869,10 +977,12 @@ def run(tier, replay=None):
     timing['tlc_each_s'] = {k: round((v[0] if isinstance(v, tuple) else v).wall_s, 1) for k, v in results.items()}
     t0 = time.time()
     mc = results['mc']
+    cov = results['cov'].coverage
     for act in ACTIONS:
-        if act not in mc.coverage or mc.coverage[act][1] == 0:
-            raise tlc.MachineryError('vacuous model: action %s never taken (%s)' % (act, mc.coverage))
-    expect = {'gen:keepbuf': ('C14.residue',), 'gen:echo505': ('C14.invalid_response', 'C14.close_mismatch')}
+        if act not in cov or cov[act][1] == 0:
+            raise tlc.MachineryError('vacuous model: action %s never taken (%s)' % (act, cov))
+    expect = {'gen:keepbuf': ('C14.residue',), 'gen:echo505': ('C14.invalid_response', 'C14.close_mismatch'),
+              'gen:stalebuf': ('C14.two_responses',)}
     gen_hists = []
     for k, clause in expect.items():
         g = results[k]
@@ -906,7 +1016,7 @@ def run(tier, replay=None):
             hists[hk] = h
             maximal.append(hk)
     seen_ops = {x[0] for hk in maximal for x in hk}
-    if seen_ops != {'C', 'I', 'X', 'D'}:
+    if seen_ops != {'C', 'I', 'X', 'D', 'T'}:
         raise tlc.MachineryError('history dump lacks some environment action: %s' % sorted(seen_ops))
     timing['parse_dumps_s'] = round(time.time() - t0, 1)
     t0 = time.time()
@@ -920,7 +1030,8 @@ def run(tier, replay=None):
             scripts.append(realise_history(hk, r, rep))
             origin.append('tlc-history')
     n_hist_scripts = len(scripts)
-    for org, sc in scripts_every_mutant(rnd, quick) + scripts_truncations(rnd, quick) + \
+    for org, sc in scripts_every_mutant(rnd, quick) + scripts_truncations(rnd, quick) + scripts_late(rnd, quick) + \
+            scripts_tls_cuts(rnd, quick) + \
             scripts_random(rnd, 250 if quick else 4000, fuzz=False) + scripts_random(rnd, 250 if quick else 4000, fuzz=True):
         scripts.append(sc)
         origin.append(org)
@@ -1010,6 +1121,8 @@ def run(tier, replay=None):
                 per_how[how] += 1
                 per_clause[m[1]] = per_clause.get(m[1], 0) + 1
                 break
+    if per_how.get('partial', 0) == 0:
+        raise tlc.MachineryError('self-test produced no corrupted trace of kind "partial"')
     need = {'C14.residue', 'C14.two_responses', 'C14.invalid_response', 'C14.close_mismatch', 'C14.loop_dead',
             'C14.dispatch_after_reject'}
     if muts:
@@ -1025,7 +1138,7 @@ def run(tier, replay=None):
     obs['malformed_dispatched_mutants'] = sorted(lenient)
     vh = {}
     for clause, w, _ in ctx.violations:
-        key = '%s %s' % (clause, json.dumps({k: v for k, v in w.items() if k not in ('cls', 'wf', 'continued', 'nresp')}, sort_keys=True))
+        key = '%s %s' % (clause, json.dumps({k: v for k, v in w.items() if k not in ('cls', 'continued', 'nresp')}, sort_keys=True))
         vh[key] = vh.get(key, 0) + 1
     return ctx.finish(coverage={
         'states': mc.distinct, 'transitions': mc.generated,
@@ -1034,6 +1147,8 @@ def run(tier, replay=None):
         'history_dump_states': dump_states,
         'scripts_by_origin': by_origin,
         'grammar_mutants': len(G.all_subs()), 'truncation_offsets': len(G.truncations()),
+        'tls_hello_cut_offsets': len(G.tls_truncations()),
+        'action_coverage': {k: list(v) for k, v in cov.items()},
         'model_line_exact_match': n_match, 'model_line_compared': n_cmp, 'model_variant_matches': matched_variant,
         'trace_validation_states': stats['states'],
         'corrupted_traces_rejected': len(muts), 'corrupted_by_clause': per_clause, 'corrupted_by_kind': per_how,
@@ -1049,9 +1164,9 @@ def run(tier, replay=None):
                 'rejection, response or close); distinct by hash of the script',
         'exhaustive': False,
     }, assumptions=[
-        'transport is the socket double of harness/httpdouble.py: close(sock) closes at once and is followed by '
-        'disconnect(sock), as circuits.net.sockets.Server does when its write buffer is empty (buffer draining is C11/C12); '
-        'no read is delivered after close or disconnect',
+        'transport is the socket double of harness/httpdouble.py: close(sock) is followed by disconnect(sock) at once, or - '
+        'lingering connections - when the harness says so, reads being delivered in between, as circuits.net.sockets.Server '
+        'does while its write buffer drains (the buffer itself is C11/C12); no read is delivered after disconnect',
         'every message is delivered as one read event and the pipeline is quiescent before the next (no pipelining; '
         'segmentation is C13); truncation + rest covers two-segment delivery at every offset',
         'http.client.HTTPResponse is the independent response parser: a response it cannot read (including one labelled '
